@@ -1247,7 +1247,7 @@ Proof.
   apply genops1_nil_rest. rewrite <- app_comm_cons, tok_string by assumption. reflexivity.
 Qed.
 
-(* --- LONG1 / LONG4: pickle.encode_long is undone by decode_long --- *)
+(* --- LONG1 / LONG4: encode_long is undone by decode_long --- *)
 Lemma long_nbytes_fits z : z <> 0 ->
   0 < long_nbytes z /\ - 2 ^ (8 * long_nbytes z - 1) <= z < 2 ^ (8 * long_nbytes z - 1).
 Proof.
@@ -1259,11 +1259,7 @@ Proof.
   set (n0 := k / 8 + 1).
   assert (Hn0 : k <= 8 * n0 - 1) by (unfold n0; lia).
   assert (P : 2 ^ k <= 2 ^ (8 * n0 - 1)) by (apply Z.pow_le_mono_r; lia).
-  destruct ((z <? 0) && (1 <? n0) && (- 2 ^ (8 * (n0 - 1) - 1) <=? z)) eqn:T.
-  - apply andb_true_iff in T as [T T3]. apply andb_true_iff in T as [T1 T2].
-    apply Z.ltb_lt in T1, T2. apply Z.leb_le in T3.
-    assert (0 < 2 ^ (8 * (n0 - 1) - 1)) by (apply Z.pow_pos_nonneg; lia). lia.
-  - unfold k in *. lia.
+  unfold k in *. lia.
 Qed.
 
 Lemma decode_encode_long z : decode_long (encode_long z) = z.
